@@ -385,6 +385,7 @@ type modifyCaller struct{}
 
 func (caller modifyCaller) Call(s *slip.Scope, args slip.List, depth int) (value slip.Object) {
 	obj := s.Get("self").(*flavors.Instance)
+	slip.CheckSendArgCount(s, depth, obj, ":modify", args, 1, 4)
 	modifyBag(s, obj, args, depth+1)
 	return obj
 }
@@ -510,6 +511,7 @@ type walkCaller struct{}
 
 func (caller walkCaller) Call(s *slip.Scope, args slip.List, depth int) (value slip.Object) {
 	obj := s.Get("self").(*flavors.Instance)
+	slip.CheckSendArgCount(s, depth, obj, ":walk", args, 1, 3)
 	walkBag(s, obj, args, depth)
 	return nil
 }
@@ -545,6 +547,7 @@ type scanCaller struct{}
 
 func (caller scanCaller) Call(s *slip.Scope, args slip.List, depth int) (value slip.Object) {
 	obj := s.Get("self").(*flavors.Instance)
+	slip.CheckSendArgCount(s, depth, obj, ":scan", args, 1, 4)
 	scanBag(s, obj, args, depth)
 	return nil
 }
